@@ -104,3 +104,25 @@ Theorem C09_decode_metadata_presentation : forall its w,
   decode_meta w = match apply_mitems None its with Some st => Ok (mk_um st) | None => Err EDecode end.
 Proof. exact decode_meta_presentation. Qed.
 Print Assumptions C09_decode_metadata_presentation.
+
+(* unknown fields of EVERY wire type — deprecated groups included, nested to any depth up to protowire's recursion
+   limit, with any varint widths inside — placed before, between or after the known fields do not change what the
+   message decodes to (`fval h num typ pb`: pb is a well-formed value of field (num, typ) of group-nesting height h) *)
+From UV Require Import Codec.Groups.
+Theorem C09_unknown_fields_incl_groups : forall its w,
+  xdata_enc its w ->
+  decode_data w = match logical_data (known_of its) with Some m => Ok m | None => Err EDecode end.
+Proof. exact decode_with_unknown_fields. Qed.
+Print Assumptions C09_unknown_fields_incl_groups.
+
+Theorem C09_field_values_are_skipped : forall h num typ pb r,
+  fval h num typ pb -> (h <= length pb)%nat -> (Z.of_nat h <= 10001)%Z -> skip_field num typ (pb ++ r) = Some r.
+Proof. exact skip_field_fval. Qed.
+Print Assumptions C09_field_values_are_skipped.
+
+Theorem C09_group_example :
+  let w := [99; 8; 5; 107; 108; 100; 8; 2] in
+  xdata_enc [XSkip 12 WT_StartGroup 2; XKnown (DType 2)] w
+  /\ decode_data w = Ok (mk_ud 2 None None [] None None None None).
+Proof. exact group_example. Qed.
+Print Assumptions C09_group_example.
